@@ -50,7 +50,7 @@ Notation par_T := (par_fit_T F zero one add mul div sqrt).
 Notation par_fit := (par_fit_candidates F zero one add mul div sqrt).
 Notation dropS := (drop F zero small).
 Notation drop2S := (drop2 F zero small2).
-Notation S_of omega A := (scaled F zero add opp div ltb eqb mul omega A).   (* omega D^-1 A, D = absolute row sums *)
+Notation S_of omega A := (scaled F zero add mul opp div ltb eqb omega A).   (* omega D^-1 A, D = absolute row sums *)
 
 (* ---- tentative prolongator, sequential, all sizes and all aggregations ---- *)
 
@@ -61,7 +61,7 @@ Theorem C16_shapes na aggs B tol :
 Proof.
   split; [reflexivity|split; [reflexivity|split]].
   - unfold fit_candidates, csc_to_csr, coo_to_csr; simpl. apply bucket_length.
-  - apply (fit_R_length F zero one add mul div sqrt ltb).
+  - apply fit_R_length.
 Qed.
 
 (* every entry in closed form: T(i,a) = B_i * scale_a on the rows of aggregate a, nothing elsewhere *)
@@ -69,7 +69,7 @@ Theorem C16_entries na aggs B tol i a :
   den (Tof na aggs B tol) i a =
   if (i <? length aggs) && (a <? na) && (nth i aggs 0 =? a)
   then mul (Bat B i) (col_scale F zero one mul div ltb sqrt tol (gsq aggs B a)) else zero.
-Proof. apply (den_T_closed F zero one add mul sub opp div inv Fth). Qed.
+Proof. eapply den_T_closed; eassumption. Qed.
 
 (* columns are supported on their aggregates *)
 Theorem C16_support na aggs B tol i a :
@@ -77,8 +77,8 @@ Theorem C16_support na aggs B tol i a :
 Proof.
   intros H. destruct (Nat.lt_ge_cases i (length aggs)) as [Hi|Hi].
   - split; [exact Hi|]. destruct (Nat.eq_dec (nth i aggs 0) a) as [E|E]; [exact E|].
-    exfalso. apply H. apply (T_support F zero one add mul sub opp div inv Fth). left. exact E.
-  - exfalso. apply H. apply (T_support F zero one add mul sub opp div inv Fth). right. exact Hi.
+    exfalso. apply H. eapply T_support; [eassumption|]. left. exact E.
+  - exfalso. apply H. eapply T_support; [eassumption|]. right. exact Hi.
 Qed.
 
 (* T R = B on every vertex (also when a restriction vanishes: then B is zero there) *)
@@ -86,8 +86,7 @@ Theorem C16_T_R_eq_B na aggs B tol i :
   aggs_wf na aggs -> tolok tol -> (forall a, a < na -> good (gsq aggs B a)) -> i < length aggs ->
   sumF (map (fun a => mul (den (Tof na aggs B tol) i a) (nth a (Rof na aggs B tol) zero)) (seq 0 na)) = Bat B i.
 Proof.
-  apply (T_R_eq_B F zero one add mul sub opp div inv Fth le le_refl le_antisym le_trans le_total le_add_r le_mul_nn
-           ltb ltb_spec eqb eqb_spec).
+  intros. eapply T_R_eq_B; eassumption.
 Qed.
 
 (* orthonormal columns: <T_a,T_b> = 0 for a <> b, <T_a,T_a> = 1 when the restriction of B to aggregate a is non-zero,
@@ -97,7 +96,7 @@ Theorem C16_orthonormal na aggs B tol a b :
   sumF (map (fun i => mul (den (Tof na aggs B tol) i a) (den (Tof na aggs B tol) i b)) (seq 0 (length aggs)))
   = if a =? b then (if eqb (gsq aggs B a) zero then zero else one) else zero.
 Proof.
-  apply (T_gram F zero one add mul sub opp div inv Fth le le_add_r le_mul_nn ltb ltb_spec eqb eqb_spec).
+  intros. eapply T_gram; eassumption.
 Qed.
 
 (* R holds the column norms; the threshold branch, precisely: restriction zero <-> R_a = 0 and column a of T zero *)
@@ -107,19 +106,14 @@ Theorem C16_R_norms na aggs B tol a :
   le zero r /\ mul r r = gsq aggs B a /\
   (gsq aggs B a = zero -> r = zero) /\ (gsq aggs B a <> zero -> r = sqrt (gsq aggs B a)).
 Proof.
-  apply (R_norm F zero one add mul sub opp div inv Fth le le_refl le_add_r le_mul_nn ltb ltb_spec eqb eqb_spec).
+  intros. eapply R_norm; eassumption.
 Qed.
 
 Theorem C16_zero_branch na aggs B tol a :
   good (gsq aggs B a) -> gsq aggs B a = zero -> a < na ->
   nth a (Rof na aggs B tol) zero = zero /\ forall i, den (Tof na aggs B tol) i a = zero.
 Proof.
-  intros Hg Hz Ha.
-  destruct (branch_zero F zero one add mul sub opp div inv Fth le ltb ltb_spec eqb eqb_spec sqrt tol _ Hg Hz) as [E1 E2].
-  split.
-  - rewrite (fit_R_nth F zero one add mul sub opp div inv Fth) by exact Ha. exact E2.
-  - intros i. rewrite C16_entries. rewrite E1. destruct (_ && _); [|reflexivity].
-    apply (Rmul_zero_r (F_R Fth)).
+  intros. eapply T_zero_branch; eassumption.
 Qed.
 
 (* ---- smoothing, sequential ---- *)
@@ -132,9 +126,7 @@ Theorem C16_smooth_one_step (A T : csr F) omega i j :
              (drop2S (sumF (map (fun l => mul (S_of omega A i l) (den T l j)) (seq 0 (length (csr_rows T))))))).
 Proof.
   intros H.
-  rewrite (den_jacobi_prolongation F zero one add mul sub opp div inv Fth le le_refl le_antisym le_trans le_total
-             le_add_r ltb ltb_spec eqb eqb_spec small small2 small_zero small2_zero) by exact H.
-  reflexivity.
+  erewrite den_jacobi_prolongation; try eassumption. reflexivity.
 Qed.
 
 (* k steps: the same step iterated (k = 2 is the k = 1 statement applied twice) *)
@@ -143,8 +135,7 @@ Theorem C16_smooth_k_steps (A T : csr F) omega k i j :
   den (jacobi A T omega k) i j =
   smooth_den F zero add mul sub small small2 (length (csr_rows T)) (S_of omega A) (den T) k i j.
 Proof.
-  apply (den_jacobi_prolongation F zero one add mul sub opp div inv Fth le le_refl le_antisym le_trans le_total
-           le_add_r ltb ltb_spec eqb eqb_spec small small2 small_zero small2_zero).
+  intros. eapply den_jacobi_prolongation; eassumption.
 Qed.
 
 (* exact form: when no non-zero intermediate value falls below the drop tolerances, P = (I - omega D^-1 A)^k T *)
@@ -156,9 +147,8 @@ Theorem C16_smooth_exact (A T : csr F) omega k i j :
   mat_apply_k F zero add mul (length (csr_rows T)) (I_minus F zero one sub (S_of omega A)) (den T) k i j.
 Proof.
   intros H Hn Hi.
-  rewrite (den_jacobi_prolongation_exact F zero one add mul sub opp div inv Fth le le_refl le_antisym le_trans le_total
-             le_add_r ltb ltb_spec eqb eqb_spec small small2 small_zero small2_zero) by assumption.
-  apply (smooth_exact_matrix F zero one add mul sub opp div inv Fth); [reflexivity|exact Hi].
+  erewrite den_jacobi_prolongation_exact; try eassumption.
+  eapply smooth_exact_matrix; [eassumption|reflexivity|exact Hi].
 Qed.
 
 (* D is the absolute row sum over all stored entries of the row, the diagonal included; rows with D = 0 get 0 *)
@@ -179,14 +169,14 @@ Theorem C16_par_T_entries sizes aggs B i c :
   | Some a => if a =? c then mul (Bat B i) (div one (sqrt (pgsq aggs B a))) else zero
   | None => zero
   end.
-Proof. apply (den_par_T F zero one add mul sub opp div inv Fth). Qed.
+Proof. intros. eapply den_par_T; eassumption. Qed.
 
 (* R on every rank: the norms of the aggregates whose root it owns, whoever holds the members *)
 Theorem C16_par_R sizes aggs B r ro :
   fold_right Nat.add 0 sizes = length aggs -> nth_error (par_fit sizes aggs B) r = Some ro ->
   ro_R F ro = map (fun c => sqrt (pgsq aggs B c)) (ro_on F ro).
 Proof.
-  intros Hs Hr. apply (par_R F zero one add mul sub opp div inv Fth sqrt sizes aggs B r ro Hs Hr).
+  intros Hs Hr. eapply par_R; eassumption.
 Qed.
 
 (* gathered distributed T = sequential T, aggregate a being called roots[a] by the distributed code *)
@@ -196,7 +186,7 @@ Theorem C16_par_T_eq_seq sizes roots seq_aggs B tol i a :
   good (gsq seq_aggs B a) -> gsq seq_aggs B a <> zero ->
   den (par_T sizes (relabel roots seq_aggs) B) i (nth a roots 0) = den (Tof (length roots) seq_aggs B tol) i a.
 Proof.
-  apply (par_T_eq_seq F zero one add mul sub opp div inv Fth le le_add_r le_mul_nn ltb ltb_spec eqb eqb_spec).
+  intros. eapply par_T_eq_seq; eassumption.
 Qed.
 
 (* smoothing on row blocks: gathered result = sequential result for every partition.
@@ -206,7 +196,7 @@ Qed.
 Theorem C16_par_smooth_eq_seq_partial sizes (A T : csr F) omega k :
   fold_right Nat.add 0 sizes = length (csr_rows A) -> length (csr_rows A) = length (csr_rows T) ->
   par_jacobi sizes A T omega k = jacobi A T omega k.
-Proof. apply (par_jacobi_eq F zero one add mul opp div ltb eqb small small2). Qed.
+Proof. apply par_jacobi_eq. Qed.
 
 End C16.
 
@@ -225,3 +215,127 @@ Print Assumptions C16_par_T_entries.
 Print Assumptions C16_par_R.
 Print Assumptions C16_par_T_eq_seq.
 Print Assumptions C16_par_smooth_eq_seq_partial.
+
+(* ---------- non-vacuity: every hypothesis above is satisfiable, at the executed instance Qc ---------- *)
+From Coq Require Import QArith Qcanon.
+From Raptor Require Import Extract.Inst Extract.Inst_sa Amg.SaQcFacts.
+Local Open Scope Qc_scope.
+
+(* two aggregates {0,2} and {1,3,4}; B restricted to them is (3,4) and (1,2,2): norms 5 and 3 *)
+Definition ex_aggs : list nat := [0; 1; 0; 1; 1]%nat.
+Definition ex_B : list Qc := [Q2Qc 3; Q2Qc 1; Q2Qc 4; Q2Qc 2; Q2Qc 2].
+Definition ex_tol : Qc := Q2Qc (1 # 10000000000).
+
+Lemma ex_aggs_wf : aggs_wf 2 ex_aggs.
+Proof. intros a H. simpl in H. intuition lia. Qed.
+
+Lemma ex_tol_ok : tol_ok Qc 0 1 Qcle ex_tol.
+Proof.
+  repeat split.
+  - unfold Qcle, Qle; simpl; lia.
+  - unfold Qcle, Qle; simpl; lia.
+  - intros H. apply (f_equal this) in H. vm_compute in H. discriminate.
+Qed.
+
+Lemma ex_good_sqrt a : (a < 2)%nat ->
+  good_sqrt Qc 0 Qcmult Qcle Qc_sqrt (gsumsq Qc 0 Qcplus Qcmult ex_aggs ex_B a).
+Proof.
+  intros Ha. destruct a as [|[|a]]; [| |lia]; split;
+    try (apply Qc_is_canon; vm_compute; reflexivity); unfold Qcle, Qle; vm_compute; discriminate.
+Qed.
+
+Example C16_tentative_nonvacuous :
+  aggs_wf 2 ex_aggs /\ tol_ok Qc 0 1 Qcle ex_tol /\
+  (forall a, (a < 2)%nat -> good_sqrt Qc 0 Qcmult Qcle Qc_sqrt (gsumsq Qc 0 Qcplus Qcmult ex_aggs ex_B a)) /\
+  snd (q_fit_candidates 2 ex_aggs ex_B ex_tol) = [Q2Qc 5; Q2Qc 3] /\
+  q_den_csr (fst (q_fit_candidates 2 ex_aggs ex_B ex_tol)) 0 0 = Q2Qc (3 # 5).
+Proof.
+  split; [exact ex_aggs_wf|split; [exact ex_tol_ok|split; [exact ex_good_sqrt|split]]].
+  - vm_compute. repeat f_equal; apply Qc_is_canon; reflexivity.
+  - apply Qc_is_canon. vm_compute. reflexivity.
+Qed.
+
+(* the theorems instantiate at Qc with the executed sqrt *)
+Example C16_T_R_eq_B_nonvacuous i : (i < 5)%nat ->
+  sumf Qc 0 Qcplus (map (fun a => q_den_csr (fst (q_fit_candidates 2 ex_aggs ex_B ex_tol)) i a *
+                                  nth a (snd (q_fit_candidates 2 ex_aggs ex_B ex_tol)) 0) (seq 0 2))
+  = bat Qc 0 ex_B i.
+Proof.
+  intros Hi.
+  apply (C16_T_R_eq_B Qc 0 1 Qcplus Qcmult Qcminus Qcopp Qcdiv Qcinv Qcft Qcle Qcle_refl Qcle_antisym Qcle_trans
+           Qc_le_total Qc_le_add_r Qc_le_mul_nn Qc_ltb Qc_ltb_spec Qc_eqb Qc_eqb_spec Qc_sqrt 2%nat ex_aggs ex_B ex_tol i
+           ex_aggs_wf ex_tol_ok ex_good_sqrt Hi).
+Qed.
+
+Example C16_orthonormal_nonvacuous a b : (a < 2)%nat -> (b < 2)%nat ->
+  sumf Qc 0 Qcplus (map (fun i => q_den_csr (fst (q_fit_candidates 2 ex_aggs ex_B ex_tol)) i a *
+                                  q_den_csr (fst (q_fit_candidates 2 ex_aggs ex_B ex_tol)) i b) (seq 0 5))
+  = if (a =? b)%nat then (if Qc_eqb (gsumsq Qc 0 Qcplus Qcmult ex_aggs ex_B a) 0 then 0 else 1) else 0.
+Proof.
+  intros Ha Hb.
+  apply (C16_orthonormal Qc 0 1 Qcplus Qcmult Qcminus Qcopp Qcdiv Qcinv Qcft Qcle Qc_le_add_r Qc_le_mul_nn
+           Qc_ltb Qc_ltb_spec Qc_eqb Qc_eqb_spec Qc_sqrt 2%nat ex_aggs ex_B ex_tol a b
+           ex_aggs_wf ex_tol_ok ex_good_sqrt Ha Hb).
+Qed.
+
+(* threshold branch: B vanishes on the only aggregate *)
+Example C16_zero_branch_nonvacuous :
+  good_sqrt Qc 0 Qcmult Qcle Qc_sqrt (gsumsq Qc 0 Qcplus Qcmult [0; 0]%nat [0; 0] 0) /\
+  gsumsq Qc 0 Qcplus Qcmult [0; 0]%nat [0; 0] 0 = 0 /\
+  snd (q_fit_candidates 1 [0; 0]%nat [0; 0] ex_tol) = [0].
+Proof.
+  split; [split|split].
+  - unfold Qcle, Qle; vm_compute; discriminate.
+  - apply Qc_is_canon; vm_compute; reflexivity.
+  - apply Qc_is_canon; vm_compute; reflexivity.
+  - vm_compute. repeat f_equal; apply Qc_is_canon; reflexivity.
+Qed.
+
+(* smoothing: the drop hypotheses hold for the library tolerances; "no underflow" is satisfiable
+   (trivially so when the drops only remove exact zeros) *)
+Definition is_zero (x : Qc) : bool := Qc_eqb x 0.
+Lemma no_underflow_is_zero n sa k : forall t,
+  no_underflow Qc 0 Qcplus Qcmult Qcminus is_zero is_zero n sa t k.
+Proof.
+  induction k as [|k IH]; intros t; simpl; [exact I|]. split; [|apply IH].
+  intros i j. split; intros H; apply Qc_eqb_spec in H; exact H.
+Qed.
+
+Example C16_smooth_nonvacuous :
+  Qc_small 0 = true /\ Qc_small_le 0 = true /\ is_zero 0 = true /\
+  let A := mkCsr 2 2 [[(0%nat, Q2Qc 2); (1%nat, Q2Qc (-1))]; [(0%nat, Q2Qc (-1)); (1%nat, Q2Qc 2)]] in
+  let T := mkCsr 2 1 [[(0%nat, Q2Qc 1)]; [(0%nat, Q2Qc 1)]] in
+  (length (csr_rows A) <= length (csr_rows T))%nat /\
+  no_underflow Qc 0 Qcplus Qcmult Qcminus is_zero is_zero 2 (scaled Qc 0 Qcplus Qcmult Qcopp Qcdiv Qc_ltb Qc_eqb 1 A)
+               (den_csr Qc 0 Qcplus T) 2 /\
+  q_den_csr (q_jacobi_prolongation A T 1 1) 0 0 = Q2Qc (2 # 3).
+Proof.
+  split; [reflexivity|split; [reflexivity|split; [reflexivity|]]]. cbv zeta.
+  split; [simpl; lia|split; [apply no_underflow_is_zero|]].
+  apply Qc_is_canon. vm_compute. reflexivity.
+Qed.
+
+(* distributed: 5 vertices on 3 ranks (the middle one empty), aggregates rooted at vertices 1 and 4 *)
+Definition ex_roots : list nat := [1; 4]%nat.
+Definition ex_seq_aggs : list nat := [0; 0; 1; 1; 1]%nat.
+Definition ex_pB : list Qc := [Q2Qc 3; Q2Qc 4; Q2Qc 1; Q2Qc 2; Q2Qc 2].
+Example C16_par_nonvacuous :
+  NoDup ex_roots /\ (forall c, In c ex_roots -> (c < length ex_seq_aggs)%nat) /\
+  aggs_wf (length ex_roots) ex_seq_aggs /\ fold_right Nat.add 0%nat [2; 0; 3]%nat = length ex_seq_aggs /\
+  paggs_wf (relabel ex_roots ex_seq_aggs) /\
+  (forall a, (a < 2)%nat -> good_sqrt Qc 0 Qcmult Qcle Qc_sqrt (gsumsq Qc 0 Qcplus Qcmult ex_seq_aggs ex_pB a) /\
+                            gsumsq Qc 0 Qcplus Qcmult ex_seq_aggs ex_pB a <> 0) /\
+  q_den_csr (q_par_fit_T [2; 0; 3]%nat (relabel ex_roots ex_seq_aggs) ex_pB) 2 4 = Q2Qc (1 # 3).
+Proof.
+  split; [repeat constructor; simpl; intuition lia|].
+  split; [intros c H; simpl in *; intuition lia|].
+  split; [intros a H; simpl in *; intuition lia|].
+  split; [reflexivity|].
+  split; [intros a H; simpl in H; intuition (try discriminate); match goal with E : Some _ = Some _ |- _ => inversion E; subst; simpl; lia end|].
+  split.
+  - intros a Ha. destruct a as [|[|a]]; [| |lia]; (split; [split|]);
+      try (apply Qc_is_canon; vm_compute; reflexivity);
+      try (unfold Qcle, Qle; vm_compute; discriminate);
+      intros H; apply (f_equal this) in H; vm_compute in H; discriminate.
+  - apply Qc_is_canon. vm_compute. reflexivity.
+Qed.
